@@ -10,6 +10,22 @@ everything else are answered by the auto server.
 Oracle memory kept by the harness (independent of the driver): which pool USEs it failed and how,
 the pool situations at the moment the switch reached the session, and for every probe request what
 keyspace the *server* had selected on the connection that carried it.
+
+Events (plain data, valid in a rebuilt world):
+  ('respond', i, kind)  answer the i-th held request (oldest first): 'set_ks' for the application's USE, for a
+                        pool's USE 'ok' | 'invalid' (InvalidRequest) | 'server_error' (the driver defuncts the connection)
+  ('defunct', vid)      the connection is lost (its held requests are never answered)
+  ('touch', host)       another request of the application is routed to a pool that holds a dead connection: the
+                        pool notices (host convicted: pool shut down + on_down queued; else replacement queued)
+  ('task', 0)           the executor runs its next task (on_down, pool shutdown, _replace, reconnector, new pool ...)
+  ('sched',)            the next scheduled task (reconnection attempt) falls due
+  ('timer',)            the earliest connection timer (client-side request timeout) fires
+Canonical state (KsWorld.canon): the USE future (done, exception type, retries, connection), session.keyspace, per
+pool (host, class, shut down, _keyspace, connection ids, _is_replacing / open_count / _scheduled_for_creation, trash
+size), per host (up, reconnecting), per connection (id, host, in_flight, closed, defunct, driver-side and server-side
+keyspace, outstanding streams), held requests, scheduled tasks, timers, queued task labels, and the oracle memory.
+Which pools have already called back is a function of (pool situations at the switch, USEs answered), both part of
+the oracle memory.  checks/c20.py compares dedup against no-dedup runs in the thorough tier.
 """
 import gc
 
@@ -25,9 +41,7 @@ from cassandra.policies import ConvictionPolicy, ConstantReconnectionPolicy, Hos
 from cassandra.query import SimpleStatement
 
 NEW = 'ks2'
-USER_USE = 'USE %s' % NEW          # what the application / Session.set_keyspace sends
-POOL_USE = 'USE "%s"' % NEW        # what Connection.set_keyspace_* sends
-FAIL_KINDS = ('invalid', 'server_error')
+USER_USE = 'USE %s' % NEW          # what the application / Session.set_keyspace sends (the pools send USE "ks2")
 
 
 class NeverConvict(ConvictionPolicy):
